@@ -64,16 +64,21 @@ def lineSearchAccept (P : CDProb α n p) (s0 : CDState α n p) (d : PNDir α n p
   P.lineSearchAcceptAt (P.pen.value P.wts s0.w) (moveBy s0 d t) d t
 
 /-- the `for _ in range(MAX_BACKTRACK_ITER)` loop: move by `step - prev_step`, test, halve.
-    When the fuel runs out the last trial point is returned (the `for … else: pass` of the code). -/
+    When the fuel runs out — no trial step passed the test — the `for … else:` branch of the code
+    undoes the last trial step (`prev` is the step of the last trial point, because a failed test
+    does `prev_step = step; step /= 2`), so the search goes back to where it started. -/
 def backtrackLoop (P : CDProb α n p) (oldPen : Ext α) (d : PNDir α n p) :
     Nat → CDState α n p → α → α → CDState α n p
-  | 0, cur, _, _ => cur
+  -- `else: w[ws_intercept] -= prev_step * delta_w_ws; Xw -= prev_step * X_delta_w_ws`
+  | 0, cur, _, prev => moveBy cur d (-prev)
   | fuel + 1, cur, step, prev =>
     let cur' := moveBy cur d (step - prev)
     if P.lineSearchAcceptAt oldPen cur' d step then cur'
     else backtrackLoop P oldPen d fuel cur' (step / nat 2) step
 
-/-- `_backtrack_line_search` with `MAX_BACKTRACK_ITER = fuel` (`20` in the code) -/
+/-- `_backtrack_line_search` with `MAX_BACKTRACK_ITER = fuel` (`20` in the code): the first
+    accepted trial point `s0 + 2^{-k} d`, or — every test failed — `s0` with the last trial step
+    undone -/
 def backtrack (fuel : Nat) (P : CDProb α n p) (s0 : CDState α n p) (d : PNDir α n p) :
     CDState α n p :=
   P.backtrackLoop (P.pen.value P.wts s0.w) d fuel s0 1 0
